@@ -123,6 +123,11 @@ impl ChunkSerializer {
             iteration = iteration + 1;
         }
 
+        if slices.is_empty() {
+            // A zero length message still needs a chunk header so the peer sees the message
+            slices.push(&message.data[0..0]);
+        }
+
         for (idx, slice) in slices.into_iter().enumerate() {
             self.add_chunk(
                 &mut bytes,
